@@ -68,8 +68,14 @@ def garbage_frame(kind: int, n: int) -> bytes:
         body = (263).to_bytes(4, "big") + b"\x40" + (200).to_bytes(3, "big") + b"abcd"
     elif kind == 1:    # trailing fragment shorter than an AVP header
         body = R.enc_avp(263, 0, 0x40, b"ok") + b"\x00\x00\x01"
-    else:              # vendor flag set, vendor id cut off
+    elif kind == 2:    # vendor flag set, vendor id cut off
         body = (263).to_bytes(4, "big") + b"\xc0" + (12).to_bytes(3, "big")
+    elif kind == 3:    # regular top-level chain, but a Grouped AVP whose member claims to be longer than the group
+        inner = (432).to_bytes(4, "big") + b"\x40" + (64).to_bytes(3, "big") + b"\x00\x00\x00\x01"
+        body = R.enc_avp(263, 0, 0x40, b"s;1") + R.enc_avp(456, 0, 0x40, inner)
+    else:              # command without a python class carrying a known AVP with a payload of the wrong size
+        body = R.enc_avp(264, 0, 0x40, b"peer1.example") + R.enc_avp(278, 0, 0x40, b"\x00\x01")
+        return R.enc_header(1, 20 + len(body), 0x80, 999, 4, 0x30000 + n, 0x40000 + n) + body
     return R.enc_header(1, 20 + len(body), 0x80, 272, 4, 0x30000 + n, 0x40000 + n) + body
 
 
@@ -221,7 +227,7 @@ def shard_main(shard, nshards, tier, scale):
     def garbage_case(draw):
         ns = draw(st.lists(st.sampled_from([n for n in names if n != "BIG"]), min_size=1, max_size=5))
         npos = draw(st.lists(st.integers(0, len(ns)), min_size=1, max_size=2))
-        kinds = [draw(st.integers(0, 2)) for _ in npos]
+        kinds = [draw(st.integers(0, 4)) for _ in npos]
         L = sum(len(pool[n]) for n in ns) + 40 * len(npos)
         how = draw(st.sampled_from(["random", "random", "bytewise", "inside-garbage"]))
         if how == "bytewise":
